@@ -1,4 +1,4 @@
-import vf, renders
+import vf, renders, c07b
 
 KINDS = [("function", dict(np=1)), ("macro", dict(np=1)), ("variable", dict(vtype="str")), ("variable", dict(vtype="UNSET")),
          ("option", dict(default=False)), ("generic", dict(np=1)), ("ctest", dict(np=1)), ("test", {}), ("section", {}),
@@ -22,4 +22,5 @@ def build(tier):
         for (k, sh) in KINDS[:3]:
             obs.append(renders.render_ob("C07.a", k, sh, (0, 2, 4), 2, timeout=2400))
         obs.append(renders.render_ob("C07.a", "function", dict(np=0), (), 1, timeout=400))
+    obs.append(c07b.ob_docutils())
     return dict(obligations=obs, explanation="x", assumptions=[])
